@@ -34,6 +34,8 @@ pub struct Scope {
     pub handles: u8,
     /// integer metric counters are part of the canonical state
     pub metrics_canon: bool,
+    /// 'allocated during the running sweep' flags are part of the canonical state
+    pub born_canon: bool,
     /// no debt normalisation; AdjustDebt/SetPacing operations; f64 bits in the state
     pub natural: bool,
     /// depth bound (0 = none: run to closure)
@@ -75,6 +77,7 @@ pub const BASE: Scope = Scope {
     sets: 0,
     handles: 0,
     metrics_canon: false,
+    born_canon: false,
     natural: false,
     max_depth: 0,
     probes: Probes { c02: false, c03: false, c04: false, c08: false, c14: false, c11: false },
@@ -118,7 +121,7 @@ pub fn scope(name: &str) -> Option<Scope> {
         "S3mb" => Scope { name: "S3mb", n: 3, r: 1, k: 1, weak: false, upgrade_ops: false, copyroot: false, wrap: false, leaf: true, barrier: true, metrics_canon: true, ..BASE },
         "S2n" => Scope { name: "S2n", n: 2, r: 1, k: 1, leaf: true, natural: true, metrics_canon: true, max_depth: 9, ..BASE },
         // protocol: all debt classes
-        "S2q" => Scope { name: "S2q", n: 2, r: 1, k: 1, classes: 0b111, fin: true, ..BASE },
+        "S2q" => Scope { name: "S2q", n: 2, r: 1, k: 1, classes: 0b111, fin: true, born_canon: true, ..BASE },
         // 3 objects + finalization
         "S3f" => Scope { name: "S3f", n: 3, r: 1, k: 1, fin: true, wrap: false, ..BASE },
         // everything, depth bounded
